@@ -356,9 +356,65 @@ def acceptance_by_complete_verb(ctx, repo, rule):
     ctx.floor(rule, "can_handle probes", n, 12 * 100)
 
 
+def one_taker_per_datagram(ctx, repo, rule):
+    """On one connection the long-lived consumers and the request waiters poll the same queue; which of them wakes first
+    after a datagram arrives is a matter of timing.  The only thing that makes the order irrelevant is that they accept
+    DISJOINT sets of datagrams.  For every long-lived consumer `_connect` starts (connection model) and every other
+    handler class the awaitable connection builds requests from: no verb (followed by a payload) is accepted by both."""
+    import ast as _ast
+    from ..absint import Interp, PyRaise, Undecided
+    from ..facts import connection_tasks
+    from .c04 import CATCH_ALL, can_handle, fresh_handler, handler_classes
+    interp = Interp(repo, max_depth=10)
+    long_lived = sorted({t["handler"] for t in connection_tasks(repo) if t["kind"] == "consume" and t["handler"] and t["handler"] not in CATCH_ALL})
+    ctx.floor(rule, "long-lived verb consumers of the awaitable connection", len(long_lived), 3)
+    classes = {c.short: c for c in handler_classes(repo) if c.short not in CATCH_ALL}
+    used = set()
+    for owner in ("GeckoAsyncSpa", "GeckoAsyncStructure"):
+        for f in repo.all_methods(owner).values():
+            for n in _ast.walk(f.node):
+                if isinstance(n, _ast.Name) and n.id in classes:
+                    used.add(n.id)
+    verbs = set()
+    for m in repo.all_mods():
+        for st in m.tree.body:
+            if isinstance(st, _ast.Assign) and isinstance(st.value, _ast.Constant) and isinstance(st.value.value, bytes) and len(st.value.value) == 5 and st.value.value.isalpha():
+                verbs.add(st.value.value)
+    ctx.floor(rule, "verbs named by the protocol modules", len(verbs), 20)
+
+    def accepts(cname):
+        out = set()
+        for v in sorted(verbs):
+            for payload in (bytes(6), b"\x01"):
+                try:
+                    if can_handle(repo, interp, classes[cname], fresh_handler(repo, interp, classes[cname]), v + payload):
+                        out.add(v)
+                except (PyRaise, Undecided):
+                    pass
+        return out
+    acc = {c: accepts(c) for c in sorted(used | set(long_lived)) if c in classes}
+    n = 0
+    for L in long_lived:
+        if L not in acc:
+            continue
+        for C, vs in sorted(acc.items()):
+            if C == L:
+                continue
+            n += 1
+            both = sorted(acc[L] & vs)
+            ctx.ob(rule, f"{L}::{C}::disjoint", not both,
+                   f"{L} (a long-lived consumer of the connection) and {C} (built by the connection for a request) both accept {both}: whichever polls first after the datagram arrives takes it - "
+                   f"taken by the waiter, the consumer's event is never raised and the waiter's real reply is left to the discard consumer", repo.method(C, "can_handle").loc,
+                   sample={"rule": rule, "consumer": L, "other": C, "shared": [v.decode() for v in both]})
+    ctx.count(f"{rule}:consumer/handler pairs compared", n)
+    ctx.floor(rule, "consumer/handler pairs compared", n, 20)
+
+
 def check_queue_class(ctx, repo):
     c = repo.cls(QUEUE_CLS)
     queue_model(ctx, repo, "R3")
+    ctx.rule("R10", "one taker per datagram: the long-lived consumers `_connect` starts and the handler classes the connection builds requests from accept pairwise disjoint verbs (can_handle interpreted on every verb the protocol modules name) - the consumers poll one queue and nothing else orders them")
+    one_taker_per_datagram(ctx, repo, "R10")
     ctx.rule("R7", "head-of-line: one pass of the discard consumer, interpreted on a real peekable queue, removes a datagram nobody claimed after one mark-and-wait interval whether the request lock is free or held, and removes nothing when the marked datagram was taken meanwhile")
     discard_consumer_model(ctx, repo, "R7")
     ctx.rule("R8", "acceptance is by complete verb: no verb consumer claims a datagram that is a truncated verb, an unknown verb sharing a stem with a known one, or a bare framing tag (can_handle of every handler class interpreted on the derived probe set)")
